@@ -254,3 +254,56 @@ func init() {
 	register(&Scenario{Prop: "C01", Name: "c01/caller-continues-after-abandoned-call-yieldcodec", Quick: []Bound{{1, 0}, {2, 0}}, Thorough: []Bound{{3, 0}}, Body: c01NextAfterAbandon(srvOpts{bufSize: 64, codec: yieldBytesCodec}, cliOpts{bufSize: 64}), OnlyKeys: []string{"C01/", "panic/", "livelock/", "hang/"}})
 	register(&Scenario{Prop: "C01", Name: "c01/caller-continues-after-abandoned-call-pipelined", Quick: []Bound{{1, 0}, {2, 0}}, Thorough: []Bound{{3, 0}}, Body: c01NextAfterAbandon(srvOpts{bufSize: 64, codec: yieldBytesCodec}, cliOpts{bufSize: 64, pipelining: true}), OnlyKeys: []string{"C01/", "panic/", "livelock/", "hang/"}})
 }
+
+// through a Transport: a CallWithContext whose cancellation races with its response, then a live
+// call on the same pooled connection while the Transport's housekeeping (CloseIdleConnections,
+// keep-alive retirement, idle timeout) runs: the abandoned call must not make the connection
+// look unused.
+func c19Transport(x *X) {
+	first := x.Choose(2)
+	hk := x.Choose(3)
+	t := newTrSys(x, "C19", 1, 1)
+	t.call("a", formCall) // warm connection
+	ab := newUcall(0x41, fGate, 24, formCallCtx)
+	ab.hctx = newCtx(nil)
+	vs.GoNamed("caller", func() {
+		ab.err = t.tr.CallWithContext(ab.hctx, "a", ab.method, &ab.args, &ab.reply)
+		ab.ret = true
+	})
+	vs.QuiesceKeep()
+	if first == 0 {
+		vs.GoNamed("canceller", func() { ab.hctx.cancel(context.Canceled) })
+		vs.GoNamed("opener", func() { t.w["a"].open(0x41) })
+	} else {
+		vs.GoNamed("opener", func() { t.w["a"].open(0x41) })
+		vs.GoNamed("canceller", func() { ab.hctx.cancel(context.Canceled) })
+	}
+	vs.Quiesce()
+	if !ab.ret {
+		x.Fail("C19/call-with-context-hangs", "Transport.CallWithContext did not return although its context is done")
+	} else if !(ab.err == context.Canceled || ab.err == nil && eqBytes(ab.reply, ab.want())) {
+		x.Fail("C19/race-outcome", "Transport.CallWithContext returned err=%v reply=%x; want the context's error or the right reply", ab.err, ab.reply)
+	}
+	t.longCall("a")
+	switch hk {
+	case 0:
+		t.tr.CloseIdleConnections()
+		vs.Quiesce()
+	case 1:
+		t.advance(tKeepAlive+tTick, ">keepalive")
+	case 2:
+		t.advance(tKeepAlive+tIdle+2*tTick, ">keepalive+idle")
+	}
+	t.release()
+	for _, l := range t.long {
+		if !l.c.ret || l.c.err != nil || !eqBytes(l.c.reply, l.c.want()) {
+			x.Fail("C19/later-call-harmed", "a call that was in flight on the pooled connection while the Transport's housekeeping ran (after an earlier CallWithContext was cancelled, order %d, housekeeping %d): returned=%v err=%v", first, hk, l.c.ret, l.c.err)
+		}
+	}
+	x.Outcome("first=%d hk=%d ab=%s", first, hk, errStr(ab.err))
+	t.shutdown()
+}
+
+func init() {
+	register(&Scenario{Prop: "C19", Name: "c19/transport-housekeeping-after-abandon", Quick: []Bound{{1, 0}, {2, 0}}, Thorough: []Bound{{3, 0}}, Body: c19Transport, MaxSteps: 200000, BudgetQ: 20})
+}
